@@ -45,7 +45,9 @@ type Prog struct {
 func LoadProg(patterns []string) (*Prog, error) {
 	os.Setenv("PATH", "/opt/veriftools/go1.26.8/bin:"+os.Getenv("PATH"))
 	env := append(os.Environ(), "GOFLAGS=-mod=mod", "GOPROXY=off", "GOSUMDB=off", "GOTOOLCHAIN=local", "CGO_ENABLED=0")
-	cfg := &packages.Config{Mode: packages.LoadAllSyntax, Dir: repoDir, Env: env}
+	// -tags verif: the guard of the repository's verification hooks (comment-only contract files
+	// and the few guarded helper functions that exist only to carry a contract)
+	cfg := &packages.Config{Mode: packages.LoadAllSyntax, Dir: repoDir, Env: env, BuildFlags: []string{"-tags=verif"}}
 	pkgs, err := packages.Load(cfg, patterns...)
 	if err != nil {
 		return nil, err
@@ -436,6 +438,17 @@ func (p *Prog) tryResolveType(s, pkg string, fn *ssa.Function) types.Type {
 			}
 			return types.NewMap(k, v)
 		}
+	}
+	if strings.Contains(s, "/") {
+		// full import path: path/to/pkg.Type
+		if i := strings.LastIndex(s, "."); i > 0 {
+			if pk := p.pkgs[s[:i]]; pk != nil && pk.Types != nil {
+				if tn, ok := pk.Types.Scope().Lookup(s[i+1:]).(*types.TypeName); ok {
+					return tn.Type()
+				}
+			}
+		}
+		return nil
 	}
 	if i := strings.Index(s, "."); i > 0 {
 		if obj := p.lookupQualified(s[:i], s[i+1:], pkg); obj != nil {
